@@ -10,6 +10,12 @@ From IT.gen Require Import GenInventory.
 Open Scope string_scope.
 
 Theorem SRC_inventory_arena : inv_arena = [
+  ("use alloc :: vec :: Vec", ["#[cfg(not(feature='std'))]"]);
+  ("use core :: { mem , num :: NonZeroUsize , ops :: { Index , IndexMut } , slice , }", ["#[cfg(not(feature='std'))]"]);
+  ("use rayon :: prelude :: *", ["#[cfg(feature='par_iter')]"]);
+  ("use serde :: { Deserialize , Serialize }", ["#[cfg(feature='deser')]"]);
+  ("use std :: { mem , num :: NonZeroUsize , ops :: { Index , IndexMut } , slice , }", ["#[cfg(feature='std')]"]);
+  ("use crate :: { node :: NodeData , Node , NodeId }", []);
   ("struct Arena", ["PartialEq"; "Eq"; "Clone"; "Debug"; "feature='deser'=>Deserialize"; "feature='deser'=>Serialize"]);
   ("impl Arena < T >", ["new := { Self :: default () }"; "with_capacity := { Self { nodes : Vec :: with_capacity (n) , first_free_slot : None , last_free_slot : None , } }"; "capacity := { self . nodes . capacity () }"; "reserve := { self . nodes . reserve (additional) ; }"; "get_node_id"; "get_node_id_at"; "new_node"; "count"; "is_empty"; "get"; "get_mut := { self . nodes . get_mut (id . index0 ()) }"; "iter := { self . nodes . iter () }"; "iter_mut := { self . nodes . iter_mut () }"; "clear"; "as_slice := { self . nodes . as_slice () }"; "free_node"; "pop_front_free_node"]);
   ("#[cfg(feature='par_iter')] impl Arena < T >", ["par_iter := { self . nodes . par_iter () }"]);
